@@ -186,8 +186,8 @@ PROPS["C07"]["parts"].append(dict(name="bus07", domain="bus", domain_module="bus
 PROPS["C06"]["parts"].append(dict(name="bus06", domain="bus", domain_module="bus", gen=bus.make_gen("C06"), n_quick=200, n_thorough=6000, chunk=128))
 
 # real-concurrency judges (witness search inside single API calls, where the controlled scheduler has no yield point)
-for _p, _sc in (("C02", "regs"), ("C04", "once"), ("C06", "waiters"), ("C07", "seq"), ("C03", "waiters"), ("C08", "hooks")):
-    PROPS[_p]["parts"].append(dict(name="stress" + _p[1:], domain="stress", domain_module="stress", gen=stress.make_gen(_sc), n_quick=10, n_thorough=(60 if _sc == "hooks" else 200), chunk=2, jobs=4, timeout=900))
+for _p, _sc in (("C02", "regs"), ("C04", "once"), ("C06", "waiters"), ("C07", "seq"), ("C03", "waiters"), ("C08", "hooks"), ("C02", "types"), ("C01", "regs"), ("C01", "types"), ("C20", "obs")):
+    PROPS[_p]["parts"].append(dict(name="stress" + _p[1:] + _sc, domain="stress", domain_module="stress", gen=stress.make_gen(_sc), n_quick=10, n_thorough=(60 if _sc == "hooks" else 200), chunk=2, jobs=4, timeout=900))
 
 # C06's Shutdown sentence: model M2s + a timing-based harness (blocked async handlers, context expiry, counting Close)
 PROPS["C06"]["parts"].append(dict(name="shutdown06", domain="shutdown", domain_module="shutdown", gen=shutdown.gen, n_quick=40, n_thorough=1500, chunk=8, jobs=8))
